@@ -336,17 +336,18 @@ func (n *WorkflowNode) addDependencyRelation(fromNodeKey string, inputs []*Field
 }
 
 func (n *WorkflowNode) checkAndAddMappedPath(paths []FieldPath) error {
+	if len(paths) == 0 {
+		// no field mappings: the predecessor's entire output becomes the entire input, i.e. the empty target path,
+		// which conflicts with every other mapping of this node whatever the declaration order
+		paths = []FieldPath{{}}
+	}
+
 	if v, ok := n.mappedFieldPath[""]; ok {
 		if _, ok = v.(struct{}); ok {
 			return fmt.Errorf("entire output has already been mapped for node: %s", n.key)
 		}
 	} else {
-		if len(paths) == 0 {
-			n.mappedFieldPath[""] = struct{}{}
-			return nil
-		} else {
-			n.mappedFieldPath[""] = map[string]any{}
-		}
+		n.mappedFieldPath[""] = map[string]any{}
 	}
 
 	for _, targetPath := range paths {
